@@ -6,7 +6,7 @@ use serde_json::{json, Value};
 
 /// every token the specification knows (Text.tla)
 pub const ALPHA: &[&str] = &[
-    "a", "b", "c", "A", "B", "C", "x", "y", "0", "1", "9", "U", "E", "T", "Q", "N", "D", "S", "R",
+    "a", "b", "c", "A", "B", "C", "x", "y", "0", "1", "9", "U", "E", "T", "K", "Q", "N", "D", "S", "R",
 ];
 
 /// tokens of ALPHA matched by the single-character regex-crate pattern `inner`
